@@ -64,6 +64,11 @@ def rechunker(
     _check_arguments(source_directory, replace, dest_directory, parallel)
     backend_key = os.path.basename(os.path.normpath(source_directory))
     dest_directory, _temp_dir = _get_dest_and_tempdir(dest_directory, replace, backend_key)
+    if os.path.realpath(dest_directory) == os.path.realpath(source_directory):
+        # The saver clears its destination before the first chunk is loaded
+        raise ValueError(
+            f"Destination {dest_directory} is the source itself, use replace=True to rechunk in place"
+        )
 
     backend = strax.FileSytemBackend(set_target_chunk_mb=target_size_mb)
     meta_data, source_compressor = _get_meta_data_and_compressor(
